@@ -28,6 +28,7 @@ impl Space {
                     "FC" => fam::fc_count(k),
                     "FA" => fam::fa_count(k),
                     "FT" => fam::ft_count(k),
+                    "FB" => fam::fb_count(k),
                     _ => panic!("unknown family {name}"),
                 },
             })
@@ -46,6 +47,7 @@ impl Space {
                     "FC" => fam::fc_decode(idx, p.k),
                     "FA" => fam::fa_decode(idx, p.k),
                     "FT" => fam::ft_decode(idx, p.k),
+                    "FB" => fam::fb_decode(idx, p.k),
                     _ => unreachable!(),
                 };
                 return (p.name, g);
